@@ -164,5 +164,43 @@ def rule_gsequ_clip(mod, rep):
                     why.append("lower clip at the safe minimum missing")
                 if not has_big:
                     why.append("upper clip at 1/safe-minimum missing")
+            if not recips and sml:
+                # the inversion loop may live in a static helper: ?scale_invert(n, v, smlnum, bignum)
+                for c in f.calls():
+                    h = mod.funcs.get(c.callee or "")
+                    if h is None or not h.internal or not h.blocks:
+                        continue
+                    for j, o in enumerate(c.ops):
+                        if not any(p == (("A", k),) for p in f.paths(o)):
+                            continue
+                        for s2 in h.insts():
+                            if s2.op == "store" and (("A", j), ("i",)) in h.addr_paths(s2) and strip_casts(h, s2.ops[0])[0] == "v":
+                                v2 = h.inst[strip_casts(h, s2.ops[0])[1]]
+                                if v2.op == "fdiv" and v2.ops[0][0] == "f" and v2.ops[0][1] == 1.0:
+                                    sl2 = expr_insts(h, v2.ops[1], through_loads=False)
+                                    # parameters of the helper the divisor is compared with / selected from
+                                    pars = set()
+                                    for x in sl2:
+                                        for z in x.ops:
+                                            z = strip_casts(h, z)
+                                            if z[0] == "a":
+                                                pars.add(z[1])
+                                    def is_sml(op):
+                                        op = strip_casts(f, op)
+                                        return op[0] == "v" and f.inst[op[1]] in sml
+                                    def is_big(op):
+                                        op = strip_casts(f, op)
+                                        if op[0] != "v":
+                                            return False
+                                        x = f.inst[op[1]]
+                                        return x.op == "fdiv" and x.ops[0][0] == "f" and x.ops[0][1] == 1.0 and is_sml(x.ops[1])
+                                    has_s = any(q < len(c.ops) and is_sml(c.ops[q]) for q in pars)
+                                    has_b = any(q < len(c.ops) and is_big(c.ops[q]) for q in pars)
+                                    recips.append((c, v2))
+                                    if not has_s:
+                                        why.append("lower clip at the safe minimum missing")
+                                    if not has_b:
+                                        why.append("upper clip at 1/safe-minimum missing")
+                ok = bool(recips) and bool(sml)
             rep.check(ok and not why, "GSEQU-CLIP", "%s#%s-factors" % (f.name, which), "1/min(max(x,smlnum),bignum)",
                       "scale factors %s[] are not clipped: %s" % (which, "; ".join(sorted(set(why))) or "no reciprocal store found"), recips[0][0].loc if recips else f.file, f.name)
